@@ -18,7 +18,7 @@ RULE = (
     "exhaustive matrix in fresh interpreters: DLTYPE_DISABLE in {unset, 0, 1, true, false, yes, lower-case variable name=1} x "
     "DLTYPE_DEBUG_MODE in {unset, 0, 1} x logging level in {default, DEBUG}; inside each interpreter: the three decorators x enabled in "
     "{default, True, False}: `decorator(obj) is obj`, and the verdict vector of a fixed 29-call corpus (single, optional and tuple hints) (accepting and rejecting calls, all "
-    "error kinds) through each decorated object. Expectation: identity iff the effective `enabled` is false (Lean decision table "
+    "error kinds) through each decorated object, and the decoration of six objects whose hints the enabled decorators refuse (general Union, non-tensor base, `self` provider on a plain function, no dltype hint). Expectation: identity iff the effective `enabled` is false (Lean decision table "
     "Properties/C13.lean), verdict vectors equal to the baseline configuration's. non-trivial = every (configuration, decorator, enabled) triple"
 )
 TRUSTED_EXTRA = ["environment parsing is pydantic-settings' (observed in subprocesses, not modelled)"]
@@ -70,6 +70,28 @@ def verdicts(obj):
         except Exception as e:
             out.append("EXC " + type(e).__name__)
     return out
+def odd():
+    # objects the ENABLED decorators refuse (or pass through with a warning) at decoration time
+    import typing
+    def g1(x: typing.Union[int, Annotated[np.ndarray, A]]): return 1
+    def g2(x: Annotated[int, A]): return 1
+    def g3(x: Annotated[np.ndarray, A]): return 1
+    def g4(x: int): return 1
+    class N1(NamedTuple):
+        x: typing.Union[int, Annotated[np.ndarray, A]]
+    @dataclass
+    class D1:
+        x: Annotated[int, A]
+    return {"dltyped": [(g1, {}), (g2, {}), (g3, {"scope_provider": "self"}), (g4, {})], "dltyped_namedtuple": [(N1, {})], "dltyped_dataclass": [(D1, {})]}
+def decorations(kind, dec, kw):
+    out = []
+    for obj, extra in odd()[kind]:
+        try:
+            d = dec(**extra, **kw)(obj)
+            out.append("identity" if d is obj else "wrapped")
+        except Exception as e:
+            out.append("EXC " + type(e).__name__)
+    return out
 res = {"debug_mode": bool(dltype.DEBUG_MODE)}
 for kind, dec, idx in (("dltyped", dltype.dltyped, 0), ("dltyped_namedtuple", dltype.dltyped_namedtuple, 1), ("dltyped_dataclass", dltype.dltyped_dataclass, 2)):
     for en in ("default", "True", "False"):
@@ -78,7 +100,8 @@ for kind, dec, idx in (("dltyped", dltype.dltyped, 0), ("dltyped_namedtuple", dl
         init0 = getattr(obj, "__init__", None)
         d = dec(**kw)(obj)
         # a dataclass is patched in place: "the class itself, untouched" = same object and same __init__
-        res[f"{kind}/{en}"] = {"identity": (d is obj) and (kind != "dltyped_dataclass" or getattr(d, "__init__", None) is init0), "verdicts": verdicts(d)}
+        res[f"{kind}/{en}"] = {"identity": (d is obj) and (kind != "dltyped_dataclass" or getattr(d, "__init__", None) is init0), "verdicts": verdicts(d),
+                               "odd": decorations(kind, dec, kw)}
 print(json.dumps(res))
 '''
 
@@ -131,6 +154,12 @@ def custom(run, tier):
                 c = Case(line + f"\t{kind}\tenabled={en}", "cfg")
                 if got["identity"] != (not enabled):
                     run.findings.append(Finding("failing-input", f"{kind}(enabled={en}) under DISABLE={dis}: returns the object itself = {got['identity']}, expected {not enabled}", c, str(got["identity"])))
+                # objects whose hints the enabled decorator refuses: disabled = handed back untouched, nothing inspected;
+                # enabled = whatever the baseline configuration does with them
+                want_odd = base[f"{kind}/True"]["odd"] if enabled else ["identity"] * len(got["odd"])
+                if got["odd"] != want_odd:
+                    i = next(i for i, (a, b) in enumerate(zip(got["odd"], want_odd)) if a != b)
+                    run.findings.append(Finding("failing-input", f"{kind}(enabled={en}) under DISABLE={dis} DEBUG_MODE={dbg}: decorating object #{i} whose hints the enabled decorator refuses gives {got['odd'][i]!r}, expected {want_odd[i]!r}", c, got["odd"][i]))
                 want = base_verdicts if enabled else ["ok"] * len(base_verdicts)
                 # constructions of disabled classes / calls of disabled functions never check; enabled ones give the baseline's verdicts and reports
                 if kind == "dltyped":
